@@ -5,14 +5,18 @@ package c13
 import (
 	"math"
 	"math/rand"
+	"strconv"
 	"testing"
 	"time"
 
+	"github.com/form3tech-oss/f1/v2/internal/options"
 	"github.com/form3tech-oss/f1/v2/internal/trigger/api"
 	"github.com/form3tech-oss/f1/v2/internal/trigger/constant"
 	"github.com/form3tech-oss/f1/v2/internal/trigger/ramp"
 	"github.com/form3tech-oss/f1/v2/internal/trigger/staged"
+	"github.com/form3tech-oss/f1/v2/internal/ui"
 	"github.com/form3tech-oss/f1/v2/internal/verifh/kit"
+	"github.com/form3tech-oss/f1/v2/internal/verifh/runkit"
 )
 
 func bits(f float64) uint64 {
@@ -127,6 +131,29 @@ func TestC13Triggers(t *testing.T) {
 			o.Fail("c13-trigger-build", mode+" trigger could not be built")
 			continue
 		}
+		jRate, pRate := jr.Rate, pr.Rate
+		if i%2 == 1 && mode != "staged" {
+			// the same through the command's flag set (--jitter among the options)
+			flagsFor := func(jj float64) map[string]string {
+				f := map[string]string{"distribution": "none", "jitter": strconv.FormatFloat(jj, 'g', -1, 64)}
+				if mode == "ramp" {
+					f["start-rate"], f["end-rate"], f["ramp-duration"] = kit.I(a)+"/1s", kit.I(b)+"/1s", "100s"
+				} else {
+					f["rate"] = kit.I(a) + "/1s"
+				}
+				return f
+			}
+			cj := runkit.Config{Mode: mode, Flags: flagsFor(j), Opts: options.RunOptions{MaxDuration: 200 * time.Second}}
+			cp := runkit.Config{Mode: mode, Flags: flagsFor(0), Opts: options.RunOptions{MaxDuration: 200 * time.Second}}
+			tj, e1 := runkit.BuildTrigger(&cj, ui.NewDiscardOutput())
+			tp, e2 := runkit.BuildTrigger(&cp, ui.NewDiscardOutput())
+			if e1 != nil || e2 != nil {
+				o.Fail("c13-trigger-build", mode+" trigger could not be built through its flag set")
+				continue
+			}
+			jRate, pRate = tj.DryRun, tp.DryRun
+			o.Count("trigger", mode+" through the flag set")
+		}
 		ln := int(r.Range(5, 110))
 		seed := int64(r.U64() >> 1)
 		rand.Seed(seed)
@@ -136,8 +163,8 @@ func TestC13Triggers(t *testing.T) {
 		at := start
 		crashed, _ := kit.Guard(func() {
 			for k := 0; k < ln; k++ {
-				rates = append(rates, int64(pr.Rate(at)))
-				outs = append(outs, int64(jr.Rate(at)))
+				rates = append(rates, int64(pRate(at)))
+				outs = append(outs, int64(jRate(at)))
 				cosb = append(cosb, bits(math.Cos(mirror.Float64()*2*math.Pi)))
 				at = at.Add(time.Second)
 			}
